@@ -4,7 +4,7 @@
    request fails.  sound b h: no field refers to a released block, the vectors
    are distinct blocks, nothing leaks, len <= size. *)
 From Coq Require Import List Bool Arith.
-From BT Require Import Model.Alloc Proofs.AllocProofs.
+From BT Require Import Model.Alloc Proofs.AllocProofs Model.AllocTree Proofs.AllocTreeProofs.
 Import ListNotations.
 
 Definition kind_ok (noval : bool) (b : bucket) : Prop :=
@@ -53,5 +53,54 @@ Example C17_example :
   match inserts false 17 empty_bucket (heap0 4) with
   | RMem b h => (b_len b, b_size b, b_keys b, b_vals b, live h) = (16, 16, Some 2, Some 1, [2; 1])
   | ROk _ _ => False
+  end.
+Proof. vm_compute. reflexivity. Qed.
+
+(* ---------------- interior nodes (Model/AllocTree.v) ---------------- *)
+(* BTree_grow on a non-empty node: the vector preamble (realloc, or malloc of
+   two slots), the new sibling object, the vectors child._split allocates
+   (bucket_split: keys [, values]; BTree_split: data).  For EVERY placement of
+   the failing request -- object creations included -- every live block is
+   owned exactly once afterwards (frame fr = the rest of the tree), the node's
+   len stays within its size, and MemoryError leaves len as it was. *)
+Theorem C17_tree_grow : forall (k : ckind) (n : node) (h : heap) (fr : list nat),
+  acct h fr (dblocks n) -> node_ok n ->
+  match tree_grow k n h with
+  | GOk n' e h' => acct h' fr (dblocks n' ++ e) /\ node_ok n' /\ n_len n' = S (n_len n) /\ 2 <= length e
+  | GMem n' h' => acct h' fr (dblocks n') /\ node_ok n' /\ n_len n' = n_len n
+  end.
+Proof. exact AllocTreeProofs.tree_grow_sound. Qed.
+Print Assumptions C17_tree_grow.
+
+(* the first insert into an empty tree *)
+Theorem C17_tree_first : forall (n : node) (h : heap) (fr : list nat),
+  acct h fr (dblocks n) -> node_ok n -> n_len n = 0 ->
+  match tree_first n h with
+  | GOk n' e h' => acct h' fr (dblocks n' ++ e) /\ node_ok n' /\ n_len n' = 1 /\ length e = 1
+  | GMem n' h' => acct h' fr (dblocks n') /\ node_ok n' /\ n_len n' = 0
+  end.
+Proof. exact AllocTreeProofs.tree_first_sound. Qed.
+Print Assumptions C17_tree_first.
+
+(* BTree_split_root: on MemoryError either nothing happened or the root holds,
+   as its only child, the node that took its vector; no block is lost or
+   referenced after release in any case *)
+Theorem C17_split_root : forall (n : node) (h : heap) (fr : list nat),
+  acct h fr (dblocks n) -> node_ok n ->
+  match split_root n h with
+  | SOk r child e h' => acct h' fr (dblocks r ++ child ++ e) /\ node_ok r /\ n_len r = 2 /\
+                        child = hd 0 child :: dblocks n
+  | SMem r child h' => acct h' fr (dblocks r ++ child) /\ node_ok r /\
+                       ((r = n /\ child = []) \/ (n_len r = 1 /\ child = hd 0 child :: dblocks n))
+  end.
+Proof. exact AllocTreeProofs.split_root_sound. Qed.
+Print Assumptions C17_split_root.
+
+(* a root whose vector is full, the sibling's second vector failing: the keys
+   vector and the sibling object are released, the enlarged root vector stays *)
+Example C17_tree_example :
+  match tree_grow (KBucket false) (mkN (Some 0) 2 2) (mkH [0] 1 4) with
+  | GMem n h => (n_data n, n_size n, n_len n, live h) = (Some 1, 4, 2, [1])
+  | GOk _ _ _ => False
   end.
 Proof. vm_compute. reflexivity. Qed.
